@@ -518,7 +518,12 @@ class JaqalParser(Parser):
             line = "EOF"
             col = 0
             raise JaqalParseError(self._source, line, col, "Unexpected end of input")
-        raise JaqalParseError(self._source, line, col, f"At token `{token.value}`")
+        try:
+            shown = f"{token.value}"
+        except ValueError:
+            # Python refuses to print an int of too many digits (a long binary literal)
+            shown = token.type
+        raise JaqalParseError(self._source, line, col, f"At token `{shown}`")
 
     def raise_error(self, message):
         """Common method for when errors come up not in the grammar but in the
